@@ -17,10 +17,10 @@ LEVEL = {
          "T-ROLE / T-AGREE on slices and part suffixes"),
  'C06': ("Decides: FL<->metre and other unit constant pairs are exact reciprocals (constant folding over exact rationals), no interpolation call disables bounds checking or clamps the query (zero-expected with positive control), load-time validation raises are present and reachable, symbolic min/max mass mean the table extremes, PTF rows are paired with the columns and unit conversions their names demand. Node exactness/boundedness/continuity of scipy interpolation are not decided.",
          "constant folding, zero-expected rule with positive control, T-ROLE"),
- 'C07': ("Decides freshness of the cumulative size table for every NcFiles construction site that can still grow (def-use across add path), exactly-one counter increment per successful add (path-complete dataflow), length source, cache key discipline and eviction refusal wiring. netCDF4/cachetools behaviour is trusted.",
+ 'C07': ("Decides freshness of the cumulative size table for every NcFiles construction site that can still grow (def-use across add path), exactly-one counter increment per successful add (path-complete dataflow), length source, cache key discipline, eviction refusal wiring, and the file-link typestate (no list operation dereferences file-only state on a store that has no file attached). netCDF4/cachetools behaviour is trusted.",
          "interprocedural def-use, forward dataflow on the CFG, dominance"),
- 'C08': ("Decides the stale-flag discipline (set on every successful identified add; every index use dominated by the lazy reindex), sorted-writer <-> bisect-reader agreement on the sort component, merged offset arithmetic and all-or-none identifier refusals.",
-         "T-ORDER (dominance), T-AGREE on pair components"),
+ 'C08': ("Decides the stale-flag discipline (set on every successful identified add; every index use dominated by the lazy reindex), sorted-writer <-> bisect-reader agreement on the sort component, merged offset arithmetic, all-or-none identifier refusals, and the file-link typestate (look-up, sync and close work on an in-memory store).",
+         "T-ORDER (dominance), T-AGREE on pair components, typestate on the CFG with certifying edges"),
  'C09': ("Decides order preservation from the argument list through metadata, relocation, merged index and the size table (order-preserving derivation chains only), presence of the two refusals, and the locate arithmetic (bisect form, bound check, local index).",
          "dataflow over derivation chains, T-ORDER"),
  'C10': ("Decides validate-before-mutate for add (forward dataflow with rejection edges: no store to logical state survives a rejection unless a catch-all handler restores the saved copy and re-raises) and for merge (no validation raise reachable after a file-system effect; metadata written last; relocation by rename only). HDF5 crash behaviour is not decided.",
@@ -46,6 +46,9 @@ LEVEL = {
  'C20': ("The property is a code-shape property: every access of the owner record lies in one critical section on a lock created once at class level, check and set share that section, only the constructor writes the record and nothing resets it. Decided completely for the constructor; assumes no __new__/pickle bypass.",
          "lock-discipline analysis"),
 }
+GENERIC = (" Generic clauses decided over this property's modules (necessary conditions of 'for every history'): a functools.cache/lru_cache "
+           "function reads nothing but its arguments in its resolved call closure and its result is not changed in place; no store through a view of a "
+           "parameter (caller-owned arrays and objects); no class-level mutable object written through an instance.")
 NOTE = "Trusted: CPython's ast parser; the engine in /verif/sa; third-party behaviour as documented (netCDF4, pyproj, scipy, pandas, pydantic, cachetools, SQLite). The rules decide necessary structural conditions: breaking one breaks the behaviour, holding all does not prove it. /repo is parsed, never imported or run."
 
 checks, na = [], []
@@ -53,6 +56,8 @@ for p in props:
     pid = p['id']
     if os.path.exists(f'{V}/sa/rules/{pid.lower()}.py'):
         text, tech = LEVEL[pid]
+        text += GENERIC
+        tech += '; generic effect rules T-MEMO / T-OWN / shared class state over the property\'s modules'
         checks.append({
             'property_id': pid,
             'quick_cmd': f'./check {pid} --tier quick',
